@@ -413,7 +413,7 @@ def machine(on_end, expired):
 
 
 SUBCHECKS = [
-    SubCheck("value_semantics", None, machine=machine, examples=(120, 800), shards=(12, 16), steps=(25, 50), timeout=(900, 3000),
+    SubCheck("value_semantics", None, machine=machine, examples=(100, 800), shards=(12, 16), steps=(25, 50), timeout=(900, 3000),
              rule="pool of shared objects, ~70 operations, fingerprints unchanged after every step, repeated calls agree"),
 ]
 SUBCHECKS[0].expected_classes = ["family:c", "family:p", "family:m", "family:d", "family:w", "family:op", "family:gate", "same_object_twice", "result_pooled"]
